@@ -12,6 +12,7 @@ type readState struct {
 	errs    int // accessor errors, mismatches between access paths
 	outside int // views that do not point into the input
 	lo, hi  uintptr
+	sink    uint64 // keeps values read through the typed list wrappers alive
 }
 
 func (s *readState) setRoot(b []byte) {
@@ -334,6 +335,43 @@ func (s *readState) typedListBody(l spec.List, c *cnode, h uint64) uint64 {
 	if n != len(c.elems) {
 		s.errs++
 		return h
+	}
+	// the typed wrappers the generated accessors build for a list field (one construction per read of
+	// the field): constructing them and reading through them must not allocate either
+	if n > 0 {
+		switch c.elems[0].kind {
+		case kBool:
+			vl := spec.NewValueList(l, spec.DecodeBool)
+			if vl.Len() == n && vl.Get(0) {
+				s.sink++
+			}
+		case kI32:
+			vl := spec.NewValueList(l, spec.DecodeInt32)
+			s.sink += uint64(vl.Len()) + uint64(vl.Get(0))
+		case kI64:
+			vl := spec.NewValueList(l, spec.DecodeInt64)
+			s.sink += uint64(vl.Len()) + uint64(vl.Get(0))
+		case kU32:
+			vl := spec.NewValueList(l, spec.DecodeUint32)
+			s.sink += uint64(vl.Len()) + uint64(vl.Get(0))
+		case kU64:
+			vl := spec.OpenValueList(l.Raw(), spec.DecodeUint64)
+			s.sink += uint64(vl.Len()) + vl.Get(0)
+		case kF64:
+			vl := spec.NewValueList(l, spec.DecodeFloat64)
+			if vl.Get(0) > 0 {
+				s.sink++
+			}
+		case kBytes:
+			vl := spec.NewValueList(l, spec.DecodeBytes)
+			s.sink += uint64(len(vl.Get(0)))
+		case kStr:
+			vl := spec.NewValueList(l, spec.DecodeString)
+			s.sink += uint64(len(vl.Get(0)))
+		case kMsg:
+			ml := spec.NewMessageList(l, spec.OpenMessageErr)
+			s.sink += uint64(ml.Len()) + uint64(ml.Get(0).Fields())
+		}
 	}
 	for i, e := range c.elems {
 		v := l.Get(i)
